@@ -24,6 +24,7 @@ import (
 func (conn *Conn) generated_CollectionList(ctx context.Context, options arvados.ListOptions) (arvados.CollectionList, error) {
 	var mtx sync.Mutex
 	var merged arvados.CollectionList
+	seen := map[string]bool{}
 	var needSort atomic.Value
 	needSort.Store(false)
 	err := conn.splitListRequest(ctx, options, func(ctx context.Context, _ string, backend arvados.API, options arvados.ListOptions) ([]string, error) {
@@ -34,15 +35,29 @@ func (conn *Conn) generated_CollectionList(ctx context.Context, options arvados.
 		}
 		mtx.Lock()
 		defer mtx.Unlock()
+		// A backend might return the same item more than once,
+		// or return an item we already received in response to
+		// an earlier request. Report every UUID received (so
+		// the caller can tell whether progress was made), but
+		// only merge the first instance of each item.
+		uuids := make([]string, 0, len(cl.Items))
+		unique := make([]arvados.Collection, 0, len(cl.Items))
+		for _, item := range cl.Items {
+			uuids = append(uuids, item.UUID)
+			if item.UUID != "" {
+				if seen[item.UUID] {
+					continue
+				}
+				seen[item.UUID] = true
+			}
+			unique = append(unique, item)
+		}
+		cl.Items = unique
 		if len(merged.Items) == 0 {
 			merged = cl
 		} else if len(cl.Items) > 0 {
 			merged.Items = append(merged.Items, cl.Items...)
 			needSort.Store(true)
-		}
-		uuids := make([]string, 0, len(cl.Items))
-		for _, item := range cl.Items {
-			uuids = append(uuids, item.UUID)
 		}
 		return uuids, nil
 	})
